@@ -15,6 +15,9 @@
                    of its `create` parameter, and returns `(None, _)` only under the false edge;
                    ObjectServer::remove passes the constant `false`, only ObjectServer::add_arc_interface
                    passes `true`; `get_child` takes `&self`.
+  ABSENT-CHILD     Node::get_child_mut: from the failure edge of every child lookup (Entry::Vacant, `get` -> None,
+                   `!contains_key`), paths that create nothing reach only `(None, _)` returns and never the next
+                   loop iteration (added after seeded change C24b)
   PRUNE-EMPTY      the guard of Node::remove_node can be true only over the true edge of `children.is_empty()`
                    (added after seeded change C24: a guard looking at direct children only still drops grandchildren)
   PRUNE-CHILDREN   every call of Node::remove_node (which drops a whole subtree) is control-dependent on a
@@ -39,6 +42,7 @@ closure; no exact structural clause); equality of what `interface`, method calls
 beyond reading the same maps.
 """
 from .. import mir
+from .. import lib_cflow as cf
 
 NODE = "zbus::object_server::node::Node"
 OS = "zbus::object_server::ObjectServer"
@@ -370,6 +374,62 @@ def absent(ctx, f):
             none_handling(ctx, f, itf, c, None, "ABSENT-NODE", OS + "::interface:" + name, name)
 
 
+def absent_child(ctx, f, g, creators):
+    """ABSENT-CHILD (added after seeded change C24b): when the lookup of a path component in `children` fails and no
+    node is created for it, the walk must stop with `(None, _)`: from the failure edge of every child lookup, the
+    paths that do not pass a node-creating call may only reach returns whose first component is `None`, and may not
+    go on to the next component. (The seed turned the failure into `break`, so `remove(Q)` for an unregistered Q
+    acted on Q's deepest existing ancestor.)"""
+    fails = []   # (switch block, failure target, what)
+    for sb, place, adt, arms, other in mir.discr_switches(g, f, None):
+        names = cf.EXT_ENUMS.get(adt)
+        if names:   # enums defined outside the workspace are keyed by variant index
+            arms = {(names[int(k)] if str(k).isdigit() and int(k) < len(names) else k): v for k, v in arms.items()}
+        if adt == "std::collections::hash::map::Entry":
+            tgt = arms.get("Vacant", other if "Occupied" in arms else None)
+            if tgt is not None:
+                fails.append((sb, tgt, "Entry::Vacant"))
+        elif adt == "core::option::Option":
+            src = mir.single_def(g, place[0])
+            if src and src[0] == "call" and src[1].is_("get", "get_mut") and "hash::map" in src[1].callee:
+                tgt = arms.get("None", other if "Some" in arms else None)
+                if tgt is not None:
+                    fails.append((sb, tgt, "children.get -> None"))
+    for sb, c, tt, ft, neg in mir.call_bool_switches(g):
+        if c.is_("contains_key") and "hash::map" in c.callee and field_of(g, c.args[0]) == "children":
+            if ft is not None:
+                fails.append((sb, ft, "!children.contains_key"))
+    ctx.floor("ABSENT-CHILD", "child-lookup failure edges in get_child_mut", len(fails), 1)
+    cblocks = {c.b for c in creators}
+    nexts = {c.b for c in mir.calls(g) if c.is_("next") and "Iterator" in (c.callee + c.declared)}
+    for sb, tgt, what in fails:
+        r = cf.reach_e(g, [tgt], avoid_blocks=cblocks, avoid_edges=[])
+        # blocks from which a creator is still reachable are on the creating path: only blocks that can no longer create count
+        cannot_create = {b for b in r if not (mir.reachable(g, [b]) & cblocks)}
+        somes = []
+        for b, i, pl, rv, ln in mir.assignments(g):
+            if b in cannot_create and pl[0] == mir.RET and not pl[1] and rv[0] == "agg" and rv[1] == "tuple":
+                o = mir.origin(g, rv[4][0])
+                if not (o[0] == "rv" and is_agg(o[1], "core::option::Option", "None")):
+                    somes.append(ln)
+        goes_on = sorted(cannot_create & nexts)
+        ok = not somes and not goes_on
+        ctx.ob("ABSENT-CHILD", "lookup-failure-ends-in-None:" + what, ok,
+               "a component without a child node (and without creation) ends the walk with (None, _)" if ok else
+               "after a failed child lookup without creation the walk %s: an operation on an unregistered path acts on "
+               "another node" % ("returns Some(node) (line %s)" % somes[0] if somes else "continues with the next component"),
+               "%s:%s" % (g.file, mir.term(g, sb)[-1] if isinstance(mir.term(g, sb)[-1], int) else g.span[0] if g.span else "?"))
+
+
+def field_of(body, op):
+    """name of the last field projection of the place `op` borrows, if any"""
+    o = mir.origin(body, op)
+    if o[0] in ("ref", "place"):
+        fl = mir.place_fields(o[1])
+        return fl[-1] if fl else None
+    return None
+
+
 def no_create(ctx, f):
     g = ctx.one(f.find(name="get_child_mut", adt=NODE, trait=""), "Node::get_child_mut")
     # the bool parameter
@@ -379,12 +439,17 @@ def no_create(ctx, f):
     ctx.floor("NO-CREATE", "tests of `create` in get_child_mut", len(sw), 1)
     t_edges = [tt for sb, tt, ft in sw if tt is not None]
     f_edges = [ft for sb, tt, ft in sw if ft is not None]
+    t_pairs = [(sb, tt) for sb, tt, ft in sw if tt is not None]   # CFG edges, not target blocks: with `!create && ..`
+    f_pairs = [(sb, ft) for sb, tt, ft in sw if ft is not None]   # the true target is also reached around the test
     creators = [c for c in mir.calls(g) if
                 (c.is_("insert", "insert_entry", "or_insert", "or_insert_with", "or_insert_with_key", "or_default", "extend") and
                  ("hash::map" in c.callee)) or (c.is_("new", "default") and NODE in c.callee)]
     ctx.floor("NO-CREATE", "node-creating calls in get_child_mut", len(creators), 1)
+    # `entry(k).or_insert*` behind the true edge of `children.contains_key(k)` finds an occupied entry: no creation
+    has_pairs = [(sb, tt) for sb, c, tt, ft, neg in mir.call_bool_switches(g)
+                 if c.is_("contains_key") and "hash::map" in c.callee and tt is not None]
     for c in creators:
-        ok = bool(t_edges) and only_under(g, c.b, t_edges, f_edges)
+        ok = bool(t_pairs) and cf.edges_dominate(g, t_pairs + (has_pairs if c.is_("or_insert", "or_insert_with", "or_insert_with_key", "or_default") else []), c.b)
         ctx.ob("NO-CREATE", "creation-only-under-create:" + c.callee.rsplit("::", 1)[-1], ok,
                "%s is reachable only through the `create == true` edge" % c.callee if ok else
                "%s can run with create == false (a lookup/removal creates nodes)" % c.callee, c.where)
@@ -396,7 +461,7 @@ def no_create(ctx, f):
             o = mir.origin(g, rv[4][0])
             if o[0] == "rv" and is_agg(o[1], "core::option::Option", "None"):
                 n_none += 1
-                ok = bool(f_edges) and only_under(g, b, f_edges, t_edges)
+                ok = bool(f_pairs) and cf.edges_dominate(g, f_pairs, b)
                 none_ok = none_ok and ok
                 ctx.ob("NO-CREATE", "none-only-without-create", ok,
                        "(None, _) is returned only through the `create == false` edge" if ok else
@@ -404,6 +469,8 @@ def no_create(ctx, f):
             elif not (o[0] == "rv" and is_agg(o[1], "core::option::Option", "Some")):
                 none_ok = False
                 ctx.ob("NO-CREATE", "return-shape", False, "first component of the result is neither Some(..) nor None literal", "%s:%d" % (g.file, ln))
+    ctx.floor("NO-CREATE", "(None, _) returns of get_child_mut", n_none, 1)
+    absent_child(ctx, f, g, creators)
     # callers and their constant
     allowed_true = {OS + "::add_arc_interface"}
     n = 0
